@@ -113,15 +113,17 @@ PROVED = {
          "with the actual sizes, and reads back as the same tags; for every prefix of a conforming document that ends on a tag boundary. Hypothesis: the "
          "re-encoding's sizes stay below 2^56-1 and the reader's size limit. Restricted to placeholder-free declared paths; global elements and reader/"
          "writer validator agreement on arbitrary accepted streams are covered by the correspondence run (read-write-read on mutated/hand-crafted streams).", ""),
- "C06": ("Theorems (Proofs/Nesting.v): C06_strict_items_well_nested — for every strict configuration (unknown ids and hierarchy errors not tolerated, "
+ "C06": ("Theorems: (Proofs/Nesting.v) C06_strict_items_well_nested — for every strict configuration (unknown ids and hierarchy errors not tolerated, "
          "nothing buffered), every byte input and every sequence of next()/try_recover()/drain operations, the successfully emitted tags are accepted "
          "by an independent checker started from some base chain (empty when reading from a root; the implied ancestors of the first placeholder-free "
          "element otherwise): every End closes the most recent unmatched Start or an implied ancestor, every Start/element has an id known to the "
-         "specification and, once the position is determined, its declared path matches exactly the chain of open masters; C06_eof_closes_all — when "
-         "the run ends with None every opened master and implied ancestor has received its End. The reader is shown to maintain 'checker state = own "
-         "stack' across header seeding, pops, errors and recoveries. PARTIAL: byte-range containment in known-size masters and End-at-exhaustion "
-         "timing are not proved here (exact for conforming documents via C01_reader_roundtrip_partial); they are judged on every run by the independent "
-         "nesting/path/extent checker of the correspondence harness.", ""),
+         "specification and, once the position is determined, its declared path matches exactly the chain of open masters; C06_eof_closes_all. "
+         "(Proofs/Extents.v) with oversized children not tolerated: C06_contained — every reachable state keeps the cursor inside every open known-size "
+         "master, ranges nested (grow_frames of try_recover preserves it); C06_element_inside — every element read lies inside the byte range of each "
+         "enclosing known-size master, a known-size master's whole declared range too; C06_end_at_exhaustion — the End of a known-size master is queued "
+         "exactly when the cursor equals the end of its range (or at end of input), never by the closing rule (which pops unknown-size masters only); "
+         "C06_run_extents — an independent extent checker over (tag, offset) items and the input bytes accepts every run up to its first error. "
+         "Buffered sets and runs after an error are judged by the correspondence harness' nesting/path/extent checker.", ""),
  "C07": ("Theorems: the closing rule (count_ended = the largest k such that the k innermost open masters have unknown size and the outermost of them is "
          "ended by the element; nothing closes below a known-size master); C07_items_partial / C07_encoding_choices_irrelevant_partial: every conforming "
          "document reads as its items with each unknown-size master's End right before the next element outside of it or at the end of input, so two "
@@ -138,15 +140,15 @@ PROVED = {
          "the termination proof: bytes must be < 256 (true of u8), and the run bound 4*|input|+64 of the model is exceeded by specifications deeper than "
          "~67 levels on 2-byte inputs (Example C05_deep_spec_exceeds_call_bound) — a limit of the model's driver, not of the code. Panics outside the "
          "modelled sites are covered by the adversarial correspondence runs under catch_unwind with hang detection.", ""),
- "C08": ("Theorems (Proofs/BufferSim.v, RollUp.v): C08_buffered_run_unrolls — for every configuration (any buffered set, buffered masters nested in "
-         "each other, any tolerances) and input, if the buffered run completes without an error outcome then unrolling every Full item (recursively) gives "
-         "exactly the tag sequence of the run with nothing buffered (side condition: the unbuffered run is not cut by the model driver's call bound, or "
-         "the unrolled length is below it; C08_buffered_run_unrolls_upto_limit holds unconditionally as a prefix statement; C08_limit_ex shows the bound "
-         "matters only for specifications ~90 levels deep); C08_buffered_run_unrolls_items — the same with offsets: a Full item carries its Start's "
-         "offset, its End is reported there too, every other item keeps its offset; the step simulation (one buffered read_next = n+1 unbuffered ones, "
-         "children of a buffered master are balanced, scan finds exactly the End of that frame also with same-id nesting); algebraic core (roll-up / "
-         "unroll). Errors inside a buffered master (partial children dropped) are judged by the correspondence groups; EOF inside a buffered master with "
-         "emit_master_end_when_eof(false) is known finding D18.", ""),
+ "C08": ("Theorems (Proofs/BufferSim.v, BufferSimErr.v, RollUp.v), for every configuration (any buffered set, buffered masters nested in each other, "
+         "any tolerances) and input: C08_buffered_run_unrolls(_items) — if the buffered run has no error outcome, unrolling every Full item recursively "
+         "gives exactly the tags (and offsets: a Full carries its Start's offset) of the run with nothing buffered; and, with EOF closing on, a "
+         "derive-consistent specification and byte input: C08_clean_stays_clean — if the unbuffered run ends cleanly so does the buffered one, with the "
+         "same unrolled tags; C08_error_prefix — if the unbuffered run ends in an error e, the buffered run yields items whose unrolling is a prefix of "
+         "the unbuffered items, followed by the SAME error e (the partial children of the buffered master are dropped); C08_master_end_found — with EOF "
+         "closing the End of an open buffered master is always found (the EOF branch of buffer_master is unreachable); step simulation incl. steps that "
+         "queue an error; algebraic core (roll-up / unroll, same-id nesting). EOF inside a buffered master with emit_master_end_when_eof(false) is "
+         "known finding D18 (the theorems show it is the only way the two runs can differ).", ""),
  "C12": ("Theorems (Proofs/Partial.v, CutExists.v): C12_every_cut_partial — for every strict configuration, every conforming document and EVERY cut "
          "position k, reading the first k bytes yields out_tdoc (cut_doc f k): the items of everything complete (a master's Start once its header is "
          "complete), then on a tag boundary the Ends of all open masters and None, and inside a tag the Ends of the known-size masters complete at that "
